@@ -92,6 +92,25 @@ func runC01(r *hk.Run) {
 		u := genURL(urng)
 		runURLCell(r, o1, u)
 	}
+
+	// (c) whole requests over the three protocols
+	type startFn func() (*origin.Origin, error)
+	for _, pr := range []struct {
+		p     int
+		start startFn
+		n     int
+	}{{1, origin.StartH1, r.Scale(500, 10000)}, {2, origin.StartH2C, r.Scale(250, 5000)}, {3, origin.StartH3, r.Scale(150, 3000)}} {
+		o, err := pr.start()
+		if err != nil {
+			r.Fail(hk.Failure{Sig: "origin-start", What: err.Error(), Input: pr.p})
+			continue
+		}
+		prng := rng.Fork()
+		for i := 0; i < pr.n; i++ {
+			runReqCell(r, o, genScenario(prng, pr.p, !r.Quick()))
+		}
+		o.Close()
+	}
 }
 
 func nonTrivialStr(s string) bool {
